@@ -35,8 +35,14 @@
 //	        0.0.0 / v0.0.0 / 0.0.0+build), every list of <= 4 / <= 5 events, every spelling, every
 //	        permutation; queried with b1, b2, every spelling of zero INCLUDING the literal "0"
 //	        (Maven, PyPI), and versions around 1.0.0 / 2.0.0
+//	phase I the signature zone: per ecosystem a ladder whose ORDER only that ecosystem defines that way
+//	        (npm 1.0.0-1 < 1.0.0-rc.1 < 1.0.0 < 1.0.2; Maven 1.0.0-rc1 < 1.0.0 < 1.0.0-sp1 < 1.0.2;
+//	        PyPI 1.0.0.dev1 < 1.0.0rc1 < 1.0.0 < 1.0.0.post1 < 1.0.2), every list, every permutation,
+//	        queried with the ladder versions and 0.9.0 / 1.0.1 / 2.0.0: the comparison applied to a
+//	        record of ecosystem X must be X's
 //	phase G explicit `versions` lists holding strings an ecosystem grammar rejects ("2004d",
-//	        "0.1dev-r1716", ...), queried with that same string: alone, among others, in a second
+//	        "0.1dev-r1716", ..., and strings a one-sided normalisation would alter: "v1.0.0", "1.0.0+build",
+//	        " 1.0.0", "1.0.0.RELEASE", ...), queried with that same string: alone, among others, in a second
 //	        entry, next to decoy entries, next to every permuted range of <= 2 events of every type
 //	        (listed => affected); and not listed with no range at all (=> not affected)
 //	phase H package names: per ecosystem an alphabet of names (plain, with '.', '_', '-', mixed case,
@@ -65,8 +71,10 @@
 //     `fixed` on the same version as an `introduced` (empty interval or re-introduction at the fix
 //     version: the ordering of the two tied events is not defined by the specification).
 //   - package versions or event versions that the ecosystem cannot parse; pre-release / build /
-//     epoch / qualifier syntax (ordering belongs to C07) — except the single below-zero probe,
-//     of which only "valid, and below every ladder version" is used.
+//     epoch / qualifier syntax in general (ordering belongs to C07) — except the below-zero versions
+//     of phase F and the short signature ladders of phase I, whose order follows directly from
+//     each ecosystem's own specification (semver 2.0 §11, Maven ComparableVersion qualifier order,
+//     PEP 440 dev < rc < final < post).
 //   - explicit `versions` entry that is version-equal but not string-equal to the queried version
 //     ("1.0.0" listed, "1.0" queried) when no range makes the version affected: the specification
 //     does not say whether the list is matched by string or by version equality — skipped, counted
@@ -149,7 +157,9 @@ func (c *rCase) toOSV() *osvschema.Vulnerability {
 // Reference version comparison: plain dotted non-negative integers, missing
 // components are zero. Only ever applied to the ladder/probe strings below.
 
-type ver [3]int
+// ver is major, minor, patch and a sub-rank within the patch level (0 = the release itself,
+// negative = pre-releases, positive = post-release qualifiers; only set through verCache).
+type ver [4]int
 
 func refParse(s string) (ver, bool) {
 	var v ver
@@ -207,7 +217,7 @@ func mustVer(s string) ver {
 
 func refCmp(a, b string) int {
 	x, y := mustVer(a), mustVer(b)
-	for i := 0; i < 3; i++ {
+	for i := 0; i < 4; i++ {
 		if x[i] != y[i] {
 			if x[i] < y[i] {
 				return -1
@@ -429,7 +439,13 @@ var aliasProbes = []string{"1.0", "2"} // Maven, PyPI only
 // weird are version strings that at least one ecosystem's grammar rejects (legacy PyPI releases
 // and the like). Phase G only uses them where the verdict does not depend on any ordering: the
 // explicit `versions` list is matched by string equality.
-var weird = []string{"2004d", "0.1dev-r1716", "1.0-SNAPSHOT", "not a version"}
+// The second half are strings a one-sided normalisation (trim a "v", drop build metadata, trim
+// space, fold case, drop ".RELEASE") would change.
+var weird = []string{"2004d", "0.1dev-r1716", "1.0-SNAPSHOT", "not a version", "v1.0.0", "V2.0", "1.0.0+build", " 1.0.0", "1.0.0.RELEASE", "1.0.0-RC1"}
+
+// companions are listed next to / instead of the queried weird string; none of them is equal to
+// any weird string under any ecosystem's version equality.
+var companions = []string{"2004d", "0.1dev-r1716", "not a version", "3.1.4"}
 
 type ecoT struct {
 	osv     string
@@ -447,6 +463,13 @@ type ecoT struct {
 	// zero usable in EVENTS (never the literal "0", which as `introduced` is the sentinel and is
 	// not defined by the specification for closers); zq are the queried versions of phase F,
 	// including the literal "0" where the ecosystem accepts it.
+	// signature zone (phase I): slad is a strictly increasing ladder of versions whose ORDER is
+	// specific to the ecosystem (another ecosystem's comparator orders or rejects them differently);
+	// srank gives the reference sub-rank of each entry; sq are the queried versions.
+	slad   []string
+	srank  []ver
+	sq     []string
+	sqIdx  []int
 	zlad   []string
 	zspell map[int][]string
 	zq     []string
@@ -468,14 +491,17 @@ type ecoT struct {
 var ecos = []*ecoT{
 	{osv: "npm", sys: resolve.NPM, name: "left-pad", other: "right-pad", plain: "plainpkg",
 		names: []string{"leftpad", "left-pad", "left_pad", "left.pad", "Left-Pad", "lodash.merge", "@scope/left-pad", "@scope/pkg", "@Scope/left_pad", "JSONStream"}, preZero: "0.0.0-alpha", spell: map[int][]string{1: {"1.0.0", "v1.0.0", "1.0.0+build"}, 5: {"2.0.0", "v2.0.0", "2.0.0+build"}},
+		slad: []string{"1.0.0-1", "1.0.0-rc.1", "1.0.0", "1.0.2"}, srank: []ver{{1, 0, 0, -2}, {1, 0, 0, -1}, {1, 0, 0, 0}, {1, 0, 2, 0}},
 		zlad: []string{"0.0.0-alpha", "0.0.0-beta", "0.0.0", "1.0.0", "2.0.0"}, zspell: map[int][]string{3: {"0.0.0", "v0.0.0", "0.0.0+build"}},
 		zq: []string{"0.0.0-alpha", "0.0.0-beta", "0.0.0", "0.0.0+build", "0.9.0", "1.0.0", "1.0.2", "2.0.0", "9.0.0"}, types: []string{"ECOSYSTEM", "SEMVER", "GIT"}},
 	{osv: "Maven", sys: resolve.Maven, name: "com.example:alpha", other: "com.example:beta", plain: "plaingroup:plainpkg",
 		names: []string{"com.example:alpha", "com.example:alpha-core", "com.example:alpha_core", "com.example:alpha.core", "com.example.alpha:core", "org.Example:Alpha-Core", "com.example:Alpha", "io.github.some-org:some_lib.x"}, preZero: "0-alpha", spell: map[int][]string{1: {"1.0.0", "1.0", "1"}, 5: {"2.0.0", "2.0", "2"}},
+		slad: []string{"1.0.0-rc1", "1.0.0", "1.0.0-sp1", "1.0.2"}, srank: []ver{{1, 0, 0, -1}, {1, 0, 0, 0}, {1, 0, 0, 1}, {1, 0, 2, 0}},
 		zlad: []string{"0-alpha", "0-beta", "0.0.0", "1.0.0", "2.0.0"}, zspell: map[int][]string{3: {"0.0.0", "0.0"}},
 		zq: []string{"0-alpha", "0-beta", "0", "0.0", "0.0.0", "0.9.0", "1.0.0", "1.0.2", "2.0.0", "9.0.0"}, types: []string{"ECOSYSTEM", "GIT"}},
 	{osv: "PyPI", sys: resolve.PyPI, name: "alpha-lib", other: "beta-lib", plain: "plainpkg",
 		names: []string{"alphalib", "alpha-lib", "alpha_lib", "alpha.lib", "Alpha-Lib", "zope.interface", "typing_extensions", "Flask_Cors", "flask-cors", "ruamel.yaml.clib", "a-b__c..d"}, preZero: "0.dev0", spell: map[int][]string{1: {"1.0.0", "1.0", "1"}, 5: {"2.0.0", "2.0", "2"}},
+		slad: []string{"1.0.0.dev1", "1.0.0rc1", "1.0.0", "1.0.0.post1", "1.0.2"}, srank: []ver{{1, 0, 0, -2}, {1, 0, 0, -1}, {1, 0, 0, 0}, {1, 0, 0, 1}, {1, 0, 2, 0}},
 		zlad: []string{"0.dev0", "0a1", "0.0.0", "1.0.0", "2.0.0"}, zspell: map[int][]string{3: {"0.0.0", "0.0", "00"}},
 		zq: []string{"0.dev0", "0a1", "0", "0.0", "0.0.0", "00", "0.9.0", "1.0.0", "1.0.2", "2.0.0", "9.0.0"}, types: []string{"ECOSYSTEM", "GIT"}},
 }
@@ -543,6 +569,21 @@ func initSpace() {
 		}
 		for _, w := range weird {
 			e.weirdIdx = append(e.weirdIdx, idxOf(w))
+		}
+		for i, v := range e.slad {
+			if old, ok := verCache[v]; ok && old != e.srank[i] {
+				fmt.Fprintf(os.Stderr, "C18 harness error: signature ladder rank of %q conflicts\n", v)
+				os.Exit(3)
+			}
+			verCache[v] = e.srank[i]
+			if i > 0 && refCmp(e.slad[i-1], v) >= 0 {
+				fmt.Fprintln(os.Stderr, "C18 harness error: signature ladder not increasing")
+				os.Exit(3)
+			}
+		}
+		e.sq = append(append([]string{}, e.slad...), "0.9.0", "1.0.1", "2.0.0")
+		for _, q := range e.sq {
+			e.sqIdx = append(e.sqIdx, idxOf(q))
 		}
 		for _, p := range e.allProbes {
 			e.pkgs = append(e.pkgs, guidedremediation.VerifVKToPackage(resolve.VersionKey{
@@ -702,14 +743,19 @@ func (c *canon) listedSpelled(e *ecoT, perm []int, sp []int) []rEvent {
 // listedZone lists a canonical list over the ecosystem's zero-zone ladder, version zero written
 // as spelling sp[k] of e.zspell.
 func (c *canon) listedZone(e *ecoT, perm []int, sp []int) []rEvent {
+	return c.listedOn(e.zlad, e.zspell, perm, sp)
+}
+
+// listedOn lists a canonical list over an arbitrary ladder with optional spellings per position.
+func (c *canon) listedOn(lad []string, spell map[int][]string, perm []int, sp []int) []rEvent {
 	out := make([]rEvent, len(perm))
 	for i, k := range perm {
 		p := c.evs[k]
-		out[i] = p.eventOn(e.zlad)
+		out[i] = p.eventOn(lad)
 		if sp[k] == 0 {
 			continue
 		}
-		s := e.zspell[p.pos][sp[k]]
+		s := spell[p.pos][sp[k]]
 		switch p.kind {
 		case 'i':
 			out[i].Introduced = s
@@ -778,10 +824,10 @@ var (
 	gPermLists                        atomic.Int64
 	gSpelledLists                     atomic.Int64
 	gZoneLists                        atomic.Int64
-	gPhaseEvals                       [10]atomic.Int64 // A, B, C1, C2, D, D0, E, F, G, H
+	gPhaseEvals                       [11]atomic.Int64 // A, B, C1, C2, D, D0, E, F, G, H, I
 )
 
-var phaseNames = []string{"A", "B", "C1", "C2", "D", "D0", "E", "F", "G", "H"}
+var phaseNames = []string{"A", "B", "C1", "C2", "D", "D0", "E", "F", "G", "H", "I"}
 
 func safeCall(v *osvschema.Vulnerability, pkg *extractor.Package) (got bool, panicked any, stack string) {
 	defer func() {
@@ -918,7 +964,19 @@ func causeKey(c *rCase, eco *ecoT, got, want bool) string {
 			return "entry-for-other-package-or-ecosystem-matched:" + dir
 		}
 	}
-	// (2) a single range of the queried package that is itself misjudged
+	// (2) explicit versions (before the ranges: a listed version needs no range)
+	for _, a := range own {
+		if len(a.Versions) == 0 {
+			continue
+		}
+		c1 := rCase{Phase: "attr", Ecosystem: c.Ecosystem, Name: c.Name, Version: c.Version,
+			Affected: []rAffected{{Ecosystem: a.Ecosystem, Name: a.Name, Versions: a.Versions}}}
+		g1, p1, _ := callImpl(&c1, pkgFor(eco, c.Name, c.Version))
+		if p1 == nil && g1 != specAffected(&c1) {
+			return "explicit-versions-list:" + dir
+		}
+	}
+	// (3) a single range of the queried package that is itself misjudged
 	for _, a := range own {
 		if !known(c.Version) {
 			break // phase G: no range is ever evaluated for such a version
@@ -945,18 +1003,6 @@ func causeKey(c *rCase, eco *ecoT, got, want bool) string {
 				return "tie-introduced-eq-last_affected:listed-order-decides:" + d1
 			}
 			return "range:" + rangeClass(rg.Events, c.Version) + ":" + d1
-		}
-	}
-	// (3) explicit versions
-	for _, a := range own {
-		if len(a.Versions) == 0 {
-			continue
-		}
-		c1 := rCase{Phase: "attr", Ecosystem: c.Ecosystem, Name: c.Name, Version: c.Version,
-			Affected: []rAffected{{Ecosystem: a.Ecosystem, Name: a.Name, Versions: a.Versions}}}
-		g1, p1, _ := callImpl(&c1, pkgFor(eco, c.Name, c.Version))
-		if p1 == nil && g1 != specAffected(&c1) {
-			return "explicit-versions-list:" + dir
 		}
 	}
 	return "combination:" + c.Phase + ":" + dir
@@ -1111,6 +1157,18 @@ func main() {
 	}
 	// phase F: the zero zone
 	zcanons := genCanonN(5, maxLen)
+	for _, e := range ecos {
+		for _, c := range genCanonN(len(e.slad), maxLen) {
+			items = append(items, workItem{"I", e, c, 0})
+			evs := c.listedOn(e.slad, nil, perms(len(c.evs))[0], make([]int, len(c.evs)))
+			for _, q := range e.sq {
+				if specScan(evs, q) != declAffected(evs, q) {
+					fmt.Fprintf(os.Stderr, "C18 harness error: the two reference formulations disagree on signature list %s @ %s (%s)\n", c.str, q, e.osv)
+					os.Exit(3)
+				}
+			}
+		}
+	}
 	for _, c := range zcanons {
 		for _, e := range ecos {
 			items = append(items, workItem{"F", e, c, 0})
@@ -1383,12 +1441,17 @@ func main() {
 					}
 				}
 			}
-		case "F":
-			// zero zone: ranges over b1 < b2 < zero < 1.0.0 < 2.0.0 with version zero spelled in every
-			// way (never "0") in events, queried with every spelling of zero including "0"
+		case "F", "I":
+			// F, zero zone: ranges over b1 < b2 < zero < 1.0.0 < 2.0.0 with version zero spelled in every
+			// way (never "0") in events, queried with every spelling of zero including "0".
+			// I, signature zone: ranges over versions whose order only this ecosystem defines that way.
+			lad, spell, qIdx := e.zlad, e.zspell, e.zqIdx
+			if it.phase == "I" {
+				lad, spell, qIdx = e.slad, nil, e.sqIdx
+			}
 			var at []int
 			for k, pv := range it.c.evs {
-				if len(e.zspell[pv.pos]) > 1 {
+				if len(spell[pv.pos]) > 1 {
 					at = append(at, k)
 				}
 			}
@@ -1398,19 +1461,19 @@ func main() {
 			}
 			sp := make([]int, len(it.c.evs))
 			for {
-				if e == ecos[0] {
+				if e == ecos[0] && it.phase == "F" {
 					gZoneLists.Add(1)
 				}
 				for pn, pm := range perms(len(it.c.evs)) {
-					l1 := it.c.listedZone(e, pm, sp)
+					l1 := it.c.listedOn(lad, spell, pm, sp)
 					for _, typ := range matchTypes {
-						for _, pi := range e.zqIdx {
-							c := mk("F", pi, own(nil, rg(typ, l1)))
+						for _, pi := range qIdx {
+							c := mk(it.phase, pi, own(nil, rg(typ, l1)))
 							w := x.check(c, e, pi, &st)
 							if pn == 0 {
 								distinct++
 							}
-							if pn == len(perms(len(it.c.evs)))-1 && e.allProbes[pi] == e.zq[2] && typ == "ECOSYSTEM" && it.c.str == "i1f4" {
+							if pn == len(perms(len(it.c.evs)))-1 && e.allProbes[pi] == lad[2] && typ == "ECOSYSTEM" && it.c.str == "i1f4" {
 								sample(c.toRCase(e, pi), w)
 							}
 						}
@@ -1420,7 +1483,7 @@ func main() {
 				for ; i < len(at); i++ {
 					k := at[i]
 					sp[k]++
-					if sp[k] < len(e.zspell[it.c.evs[k].pos]) {
+					if sp[k] < len(spell[it.c.evs[k].pos]) {
 						break
 					}
 					sp[k] = 0
@@ -1487,8 +1550,13 @@ func main() {
 			all := rg("ECOSYSTEM", []rEvent{{Introduced: "0"}})
 			for wi, pi := range e.weirdIdx {
 				u := e.allProbes[pi]
-				u2 := weird[(wi+1)%len(weird)]
-				u3 := weird[(wi+2)%len(weird)]
+				var others []string
+				for _, cmpn := range companions {
+					if cmpn != u {
+						others = append(others, cmpn)
+					}
+				}
+				u2, u3 := others[0], others[1]
 				one := func(aff ...osvschema.Affected) {
 					w := x.check(mk("G", pi, aff...), e, pi, &st)
 					distinct++
@@ -1515,7 +1583,7 @@ func main() {
 				}
 				// not listed, no range in any entry for the package
 				one(own([]string{u2}))
-				one(own([]string{u2, u3, "1.0.0"}))
+				one(own([]string{u2, u3, "3.1.4"}))
 				one(own(nil), own([]string{u3}))
 				for _, d := range decoys {
 					one(entry(d[0], d[1], []string{u}, all))
@@ -1599,6 +1667,7 @@ func main() {
 		"Maven": map[string]any{"ladder": ecos[1].zlad, "zero_spellings_in_events": ecos[1].zspell[3], "queried": ecos[1].zq},
 		"PyPI":  map[string]any{"ladder": ecos[2].zlad, "zero_spellings_in_events": ecos[2].zspell[3], "queried": ecos[2].zq}})
 	r.Set("unparsable_version_strings", weird)
+	r.Set("signature_ladders", map[string][]string{"npm": ecos[0].slad, "Maven": ecos[1].slad, "PyPI": ecos[2].slad})
 	r.Set("package_names", map[string][]string{"npm": ecos[0].names, "Maven": ecos[1].names, "PyPI": ecos[2].names})
 	r.Set("event_spellings", map[string]map[int][]string{"npm": ecos[0].spell, "Maven": ecos[1].spell, "PyPI": ecos[2].spell})
 	byPhase := map[string]int64{}
